@@ -501,6 +501,10 @@ func init() {
 						s.OK(key, p, "search loop: "+why)
 						continue
 					}
+					if ok, why := cutLoop(c, l); ok {
+						s.OK(key, p, "cutting loop: "+why)
+						continue
+					}
 					if ok, why := cursorLoop(c, f, l); ok {
 						s.OK(key, p, "cursor loop: "+why)
 						continue
@@ -852,6 +856,166 @@ func searchNextLoop(c *Ctx, l *ssaLoop) (bool, string) {
 		}
 	}
 	return false, ""
+}
+
+// cutLoop: `for more := true; more; { part, rest, more = cut(rest, sep) … }` — the loop goes on only while a flag is
+// true; on every way round the flag is the "found" result of a call of a cutting function on the rest, and the rest
+// becomes that call's "after" result. A cutting function returns found=true only together with s[i+k:] (k ≥ 1, i ≥ 0)
+// of its string parameter as "after": every round with found=true shortens the rest by at least one byte.
+func cutLoop(c *Ctx, l *ssaLoop) (bool, string) {
+	for b := range l.Blocks {
+		iff, ok := lastIf(b)
+		if !ok {
+			continue
+		}
+		in0, in1 := l.Blocks[b.Succs[0]], l.Blocks[b.Succs[1]]
+		if in0 == in1 {
+			continue
+		}
+		var more *ssa.Phi
+		for _, nf := range normFact(iff.Cond, in0) {
+			if p, isPhi := nf.Cond.(*ssa.Phi); isPhi && nf.Val && p.Block() == l.Header {
+				more = p
+			}
+		}
+		if more == nil {
+			continue
+		}
+		okAll, n := true, 0
+		why := ""
+		for i, e := range more.Edges {
+			if !l.Blocks[l.Header.Preds[i]] {
+				continue
+			}
+			n++
+			ex, isEx := e.(*ssa.Extract)
+			if !isEx {
+				okAll = false
+				break
+			}
+			call, isCall := ex.Tuple.(*ssa.Call)
+			if !isCall {
+				okAll = false
+				break
+			}
+			g := call.Common().StaticCallee()
+			ps, ka, ok := cuttingFunction(c, g, ex.Index)
+			if !ok || ps >= len(call.Common().Args) {
+				okAll = false
+				break
+			}
+			rest, isPhi := call.Common().Args[ps].(*ssa.Phi)
+			if !isPhi || rest.Block() != l.Header {
+				okAll = false
+				break
+			}
+			// the rest becomes the "after" result of this very call on this way round
+			ex2, isEx2 := rest.Edges[i].(*ssa.Extract)
+			if !isEx2 || ex2.Tuple != ssa.Value(call) || ex2.Index != ka {
+				okAll = false
+				break
+			}
+			why = fmt.Sprintf("%s is true only when %s cut at least one byte off %s, which becomes the rest", more.Comment, g.Name(), rest.Comment)
+		}
+		if okAll && n > 0 {
+			return true, why
+		}
+	}
+	return false, ""
+}
+
+// cuttingFunction: g returns (…, after, …, found, …) with found (result kf) a constant on every return, and found=true
+// only together with after = s[i+k:] for a string parameter s, k ≥ 1 and i known to be non-negative there.
+func cuttingFunction(c *Ctx, g *ssa.Function, kf int) (ps, ka int, ok bool) {
+	if g == nil || len(g.Blocks) == 0 || !c.P.InModule(g) {
+		return 0, 0, false
+	}
+	type rk struct{ ps, ka int }
+	memo := c.Memo(fmt.Sprintf("cuttingFunction:%s:%d", g.String(), kf), func() interface{} {
+		ps, ka := -1, -1
+		trues := 0
+		ff := Facts(c, g)
+		for _, b := range g.Blocks {
+			ret, isRet := b.Instrs[len(b.Instrs)-1].(*ssa.Return)
+			if !isRet {
+				continue
+			}
+			if kf >= len(ret.Results) {
+				return rk{-1, -1}
+			}
+			found, isK := constBool(ret.Results[kf])
+			if !isK {
+				return rk{-1, -1}
+			}
+			if !found {
+				continue
+			}
+			trues++
+			hit := false
+			for ri, r := range ret.Results {
+				sl, isSl := r.(*ssa.Slice)
+				if !isSl || sl.High != nil || sl.Low == nil {
+					continue
+				}
+				p, isP := sl.X.(*ssa.Parameter)
+				if !isP || !isStringType(p.Type()) {
+					continue
+				}
+				t := termOf(sl.Low)
+				if t.base == nil || t.k < 1 {
+					continue
+				}
+				// the index is known to be non-negative where the function returns
+				nonNeg := false
+				for _, fa := range ff.At(b) {
+					bo, isB := fa.Cond.(*ssa.BinOp)
+					if !isB || bo.X != t.base {
+						continue
+					}
+					k, isC := constInt(bo.Y)
+					if !isC {
+						continue
+					}
+					rel, okR := relOf(bo.Op, fa.Val)
+					if !okR {
+						continue
+					}
+					if (rel == token.GEQ && k >= 0) || (rel == token.GTR && k >= -1) {
+						nonNeg = true
+					}
+					if rel == token.NEQ && k == -1 {
+						if call, isCall := t.base.(*ssa.Call); isCall {
+							if cl := call.Common().StaticCallee(); cl != nil && strings.HasPrefix(cl.String(), "strings.Index") {
+								nonNeg = true
+							}
+						}
+					}
+				}
+				if !nonNeg {
+					continue
+				}
+				pi := -1
+				for j, q := range g.Params {
+					if q == p {
+						pi = j
+					}
+				}
+				if pi < 0 || (ps >= 0 && (ps != pi || ka != ri)) {
+					continue
+				}
+				ps, ka = pi, ri
+				hit = true
+			}
+			if !hit {
+				return rk{-1, -1}
+			}
+		}
+		if trues == 0 {
+			return rk{-1, -1}
+		}
+		return rk{ps, ka}
+	}).(rk)
+	return memo.ps, memo.ka, memo.ps >= 0
 }
 
 // scanStartParam: the int parameter a search function starts scanning from — its non-negative results are values of a
